@@ -331,8 +331,7 @@ def compare(ctx, prog, mo, trace=None):
         if "legal" in s:
             if s["legal"] and not ok_impl and exc_full == "UnavailableModeException/port-overlap":
                 found.append((i, "legal-plug-rejected:new-herald-mode-under-a-port-sticking-out-of-the-circuit",
-                              f"a legal plug was refused {what0}: an earlier plug through a non-monotone mapping left a "
-                              f"multi-mode port beyond the last mode, where the new heralded mode is created",
+                              f"a legal plug was refused {what0}: the new heralded mode is reported as occupied by a port",
                               "accepted", f"rejected ({exc}: Another port overlaps)"))
             elif s["legal"] and not ok_impl and exc in ("InvalidMappingException", "UnavailableModeException"):
                 shape = "dict-with-port-name-to-int" if "name-to-int" in plug_shape(s) else plug_shape(s)
@@ -837,7 +836,7 @@ def malformed_plug(rng, g, right):
 # ------------------------------------------------------------------ corpus
 def corpus():
     """Witnesses of the repaired defects (DESIGN §9 rows 13, 15: fixes 7bb2f795, c0ab6b50; name->int dictionary entry:
-    2ff1ae25), kept as regression guards, and of the open one (port re-attached beyond the circuit); always run first."""
+    2ff1ae25; port re-attached beyond the circuit, two histories: 6d353ebc), kept as regression guards; always run first."""
     from ..common import Ang
     bs = gen.Leaf("BS", 2, gen.bs_exact(0, Ang(3, 4, 5), [Ang(1, 0, 1)] * 4), (0, 2 * Ang(3, 4, 5).value, [0.0] * 4))
     ry = gen.Leaf("BS", 2, gen.bs_exact(1, Ang(5, 12, 13), [Ang(1, 0, 1)] * 4), (1, 2 * Ang(5, 12, 13).value, [0.0] * 4))
@@ -865,7 +864,17 @@ def corpus():
              {"op": "new", "v": 2, "m": 2, "items": [(0, bs)]},
              {"op": "herald", "v": 2, "mode": 1, "expected": 0, "name": 0},
              {"op": "proc", "v": 0, "map": {"kind": "int", "b": 0}, "w": 2, "keep": 1, "legal": True}]
-    return [row13, row15, ok15, named, named_ok, stick]
+    # second history of the same defect (first thorough run): a DUAL_RAIL port reversed by the mapping stuck out of
+    # the circuit and the next plug by port name died in out_port_names (IndexError) instead of being refused
+    hist = [{"op": "new", "v": 0, "m": 3},
+            {"op": "new", "v": 1, "m": 3, "items": [(0, bs), (1, ry)]},
+            {"op": "port", "v": 1, "mode": 0, "name": 2, "enc": 1, "size": 2, "loc": 2},
+            {"op": "proc", "v": 0, "map": {"kind": "dict", "items": [(0, 2), (2, 0), (1, 1)]}, "w": 1, "keep": 1, "legal": True},
+            {"op": "new", "v": 2, "m": 3, "items": [(0, ry)]},
+            {"op": "herald", "v": 2, "mode": 0, "expected": 0, "name": 0},
+            {"op": "proc", "v": 0, "map": {"kind": "dict", "items": [(("n", 2), ("l", [1])), (("n", 4), 2)]}, "w": 2,
+             "keep": 0, "legal": False, "kind": "unknown-name"}]
+    return [row13, row15, ok15, named, named_ok, stick, hist]
 
 
 def is_weird_plug(s):
